@@ -26,6 +26,7 @@ from liquid2.builtin.expressions import identifier_as_source
 from liquid2.builtin import Identifier
 from liquid2.builtin import StringLiteral
 from liquid2.builtin import parse_string_or_identifier
+from liquid2.exceptions import LiquidError
 from liquid2.exceptions import LiquidSyntaxError
 from liquid2.exceptions import RequiredBlockError
 from liquid2.exceptions import StopRender
@@ -241,7 +242,13 @@ class BlockNode(Node):
             block_scope=True,
         )
 
-        return stack_item.block.block.render(ctx, buffer)
+        try:
+            return stack_item.block.block.render(ctx, buffer)
+        except LiquidError as err:
+            # The block comes from another template than the one being rendered.
+            if not err.template_name:
+                err.template_name = stack_item.source_name
+            raise
 
     async def render_to_output_async(
         self, context: RenderContext, buffer: TextIO
@@ -294,7 +301,12 @@ class BlockNode(Node):
             carry_loop_iterations=True,
             block_scope=True,
         )
-        return await stack_item.block.block.render_async(ctx, buffer)
+        try:
+            return await stack_item.block.block.render_async(ctx, buffer)
+        except LiquidError as err:
+            if not err.template_name:
+                err.template_name = stack_item.source_name
+            raise
 
     def children(
         self,
@@ -414,7 +426,12 @@ class BlockDrop(Mapping[str, object]):
                 )
             }
         ):
-            self.parent.block.block.render(self.context, buf)
+            try:
+                self.parent.block.block.render(self.context, buf)
+            except LiquidError as err:
+                if not err.template_name:
+                    err.template_name = self.parent.source_name
+                raise
 
         if self.context.auto_escape:
             return Markupsafe(buf.getvalue())
